@@ -126,6 +126,9 @@ func collectUnits(prog *Program, prop string) []*unit {
 					if ap.NoPanic && safetyKind(o.Kind) {
 						ok = true
 					}
+					if ap.Tokens && o.Kind == "token" {
+						ok = true
+					}
 					if o.Kind == "unverified-callee" {
 						ok = true
 					}
